@@ -723,9 +723,20 @@ var vfsRLNames = [...]string{"pass", "drop", "allowlisted", "use-global"}
 
 // vfsScript is what the fakes do for the request being served.
 type vfsScript struct {
-	Outcome  int
-	List     filter.ID
-	Rule     filter.RuleText
+	Outcome int
+	List    filter.ID
+	Rule    filter.RuleText
+
+	// RespToo, if not vfsOutNone, is what the response filter reports in
+	// addition to a request-stage result (request blocked / allowed /
+	// rewritten): vfsOutRespBlocked or vfsOutRespAllowed, with its own list
+	// and rule.  The main middleware runs the response filters also for
+	// requests that were already decided at the request stage; the
+	// request-stage verdict takes precedence.
+	RespToo  int
+	RespList filter.ID
+	RespRule filter.RuleText
+
 	GlobalRL int
 	ProfRL   int
 }
@@ -1023,6 +1034,13 @@ func vfsNewStack(tb testing.TB, conf *vfsConfig) (s *vfsStack) {
 				return &filter.ResultBlocked{List: sc.List, Rule: sc.Rule}, nil
 			case vfsOutRespAllowed:
 				return &filter.ResultAllowed{List: sc.List, Rule: sc.Rule}, nil
+			}
+
+			switch sc.RespToo {
+			case vfsOutRespBlocked:
+				return &filter.ResultBlocked{List: sc.RespList, Rule: sc.RespRule}, nil
+			case vfsOutRespAllowed:
+				return &filter.ResultAllowed{List: sc.RespList, Rule: sc.RespRule}, nil
 			default:
 				return nil, nil
 			}
@@ -1227,7 +1245,21 @@ func (r *vfsRequest) String() string {
 	return fmt.Sprintf("req{%s client=%s(16=%t) local=%s sni=%q cpe=%q id=%s prof=%d dev=%d unknownDedicated=%t q=%s/%s/%s ecs=%v badECS=%t outcome=%s rl=%s/%s}",
 		r.Server, r.Client, r.Client16, r.Local, r.SNI, r.CPEID, r.IDMode, r.Prof, r.Dev, r.UnknownDedicated,
 		r.Name, dns.TypeToString[r.QType], dns.ClassToString[r.QClass], r.ECS, r.BadECS,
-		vfsOutcomeNames[r.Script.Outcome], vfsRLNames[r.Script.GlobalRL], vfsRLNames[r.Script.ProfRL])
+		r.Script.Describe(), vfsRLNames[r.Script.GlobalRL], vfsRLNames[r.Script.ProfRL])
+}
+
+// Describe names the scripted filtering results of both stages.
+func (sc vfsScript) Describe() string {
+	s := vfsOutcomeNames[sc.Outcome]
+	if sc.Outcome != vfsOutNone {
+		s += fmt.Sprintf("(%s %q)", sc.List, sc.Rule)
+	}
+
+	if sc.RespToo != vfsOutNone {
+		s += fmt.Sprintf("+%s(%s %q)", vfsOutcomeNames[sc.RespToo], sc.RespList, sc.RespRule)
+	}
+
+	return s
 }
 
 // vfsAddrsIn returns standard client addresses contained in pfx.
@@ -1458,6 +1490,20 @@ func vfsDrawRequest(t *rapid.T, s *vfsStack, o vfsOpts) (r *vfsRequest) {
 	if r.Script.Outcome != vfsOutNone {
 		r.Script.List = rapid.SampledFrom(vfsLists).Draw(t, "list")
 		r.Script.Rule = rapid.SampledFrom(vfsRuleTextPool).Draw(t, "rule")
+	}
+
+	switch r.Script.Outcome {
+	case vfsOutReqBlocked, vfsOutReqAllowed, vfsOutRewritten:
+		// Both stages: the upstream answer of a request-decided query also
+		// matches a response-stage rule (another one, or the very same).
+		r.Script.RespToo = rapid.SampledFrom([]int{vfsOutNone, vfsOutRespBlocked, vfsOutRespBlocked, vfsOutRespAllowed}).Draw(t, "respToo")
+		if r.Script.RespToo != vfsOutNone {
+			r.Script.RespList, r.Script.RespRule = r.Script.List, r.Script.Rule
+			if rapid.Bool().Draw(t, "respOtherRule") {
+				r.Script.RespList = rapid.SampledFrom(vfsLists).Draw(t, "respList")
+				r.Script.RespRule = rapid.SampledFrom(vfsRuleTextPool).Draw(t, "respRule")
+			}
+		}
 	}
 
 	gl := []int{vfsRLPass, vfsRLPass, vfsRLPass, vfsRLAllowlisted}
